@@ -910,17 +910,20 @@ def _captures_all(dist, n, k0):
     return len(got) == k0
 
 
-def gen_nonframe_warm(rng, kind=None, his=(4, 6, 10)):
+def gen_nonframe_warm(rng, kind=None, his=(4, 6, 10), small=False):
     """warm start from 1..3 supplied centres that are NOT frames of the data (centroids, centres of an earlier
     clustering of other data; what upstream's hot-start test passes): `vinit` virtual frames n.. of the pool.
     Library metrics: points with coordinates on the quarter grid (distinct from every frame; sums of squares and
     manhattan sums exact in float32/64); table metrics: further points of the same table (ndarray of indices or
     md.Trajectory).  Every supplied centre attracts at least one frame, so that the labels are 0..k-1.
-    c["init"] holds the virtual indices n.., so replay and model run on the (n+k0)^2 matrix unchanged."""
+    c["init"] holds the virtual indices n.., so replay and model run on the (n+k0)^2 matrix unchanged.
+    small=True: a small batch of 2..5 frames and a stopping rule that asks for more centres than the batch has frames
+    (supplied centres + centres still needed > n: n+1 .. n+k0 centres requested, and / or a radius below every distance
+    of the data): the supplied centres count, so the run legitimately ends with more centres than frames."""
     kind = kind or rng.choice(["euclidean", "euclidean", "manhattan", "matrix", "traj"])
     while True:
-        n = rng.randint(4, 12)
-        k0 = rng.randint(1, 3)
+        n = rng.randint(2, 5) if small else rng.randint(4, 12)
+        k0 = rng.randint(1, min(3, n)) if small else rng.randint(1, 3)
         c = {"kind": "kcenters", "n": n, "vinit": k0, "init": list(range(n, n + k0)), "form": "func"}
         if kind in ("matrix", "traj"):
             M, tri = gen_matrix(rng, n + k0, rng.choice([3, 6, 12]))
@@ -951,8 +954,14 @@ def gen_nonframe_warm(rng, kind=None, his=(4, 6, 10)):
             break
     c["init_form"] = rng.choice(["array", "array", "list"])
     mode = rng.choice(["k", "k", "k", "r", "both"])
-    c["nclu"] = k0 + rng.randint(1, max(1, min(5, n - k0))) if mode in ("k", "both") else None
-    c["cutoff"] = rng.choice([1, 2, 3, 1.5, 2.5]) if mode in ("r", "both") else None
+    if small:
+        # every distance between distinct points is >= 1/4 (quarter grid) resp. >= 1 (tables): 1/8 and 0.2 lie below all of them
+        c["small"] = True
+        c["nclu"] = rng.randint(n + 1, n + k0) if mode in ("k", "both") else None
+        c["cutoff"] = rng.choice([0.125, 0.2, 0.125, 1] + ([0, 1.5] if mode == "both" else [])) if mode in ("r", "both") else None
+    else:
+        c["nclu"] = k0 + rng.randint(1, max(1, min(5, n - k0))) if mode in ("k", "both") else None
+        c["cutoff"] = rng.choice([1, 2, 3, 1.5, 2.5]) if mode in ("r", "both") else None
     c["ti"] = rng.random() < 0.7
     if not c["ti"] and rng.random() < 0.3:
         c["form"] = "class"
@@ -998,6 +1007,139 @@ def gen_nonframe_line(rng, kind):
         c.update(metric="matrix", M=M, tri=True)
     else:
         c.update(metric=kind, X=[[float(v)] for v in pos], init_pts=[[float(v)] for v in P], dtype=rng.choice(["float64", "float32"]))
+    return c
+
+
+def replay_greedy(D, n, nclu, cutoff, init, ti=False):
+    """farthest-first with first-maximum ties and the exact stop rule on the exact matrix D (D[c][f] = distance of
+    frame f to centre c; integers or Fractions).  ti=True: with the recompute mask of the shortcut (a frame is looked at
+    only if twice its distance exceeds the distance of its centre to the new centre) -- equal to the plain run whenever
+    D obeys the triangle inequality.  Returns (ctrs, asg, dst, steals): steals = number of frames that went over to a
+    new centre from a cluster OTHER than the one the new centre sat in, at a moment when >= 2 centres existed."""
+    if init:
+        ctrs = list(init)
+        asg, dst = [], []
+        for f in range(n):
+            j = min(range(len(ctrs)), key=lambda i: (D[ctrs[i]][f], i))
+            asg.append(j)
+            dst.append(D[ctrs[j]][f])
+    else:
+        ctrs = [0]
+        asg = [0] * n
+        dst = [D[0][f] for f in range(n)]
+    steals = 0
+    while (nclu is None or len(ctrs) < nclu) and max(dst) > cutoff:
+        m = max(range(n), key=lambda f: (dst[f], -f))
+        own = asg[m]
+        cc_d = [D[m][c] for c in ctrs]
+        new_asg, new_dst = list(asg), list(dst)
+        for f in range(n):
+            if ti and not (2 * dst[f] > cc_d[asg[f]]):
+                continue
+            if D[m][f] < dst[f]:
+                new_dst[f], new_asg[f] = D[m][f], len(ctrs)
+                if asg[f] != own and len(ctrs) >= 2:
+                    steals += 1
+        asg, dst = new_asg, new_dst
+        ctrs.append(m)
+    return ctrs, asg, dst, steals
+
+
+def _int_D(c):
+    """exact integer distances of a generated case, monotone in the real ones (euclidean: squared), for generator filters"""
+    if c["metric"] == "matrix":
+        return [[int(F(v)) for v in row] for row in c["M"]]
+    X = c["X"]
+    if c["metric"] == "manhattan":
+        return [[sum(abs(a - b) for a, b in zip(p, q)) for q in X] for p in X]
+    return [[sum((a - b) ** 2 for a, b in zip(p, q)) for q in X] for p in X]
+
+
+def gen_ti_steal(rng):
+    """the triangle-inequality shortcut on data obeying the triangle inequality (distinct integer points under euclidean /
+    manhattan, shortest-path closures of integer tables on an index column or an md.Trajectory), 7..14 frames, at least
+    three centres, cold start or continued from 1..2 frames, built so that some new centre takes frames away from a
+    NEIGHBOURING cluster (not only from the cluster it sat in): the frames of every cluster have to be re-examined."""
+    while True:
+        kind = rng.choice(["euclidean", "euclidean", "manhattan", "manhattan", "matrix", "traj"])
+        n = rng.randint(7, 14)
+        c = {"kind": "kcenters", "form": "func", "ti": True, "n": n, "cutoff": None, "init": None, "steal": True}
+        if kind in ("matrix", "traj"):
+            M, tri = gen_matrix(rng, n, rng.choice([6, 12, 20]))
+            if not tri:
+                continue
+            c.update(metric="matrix", M=M, tri=True)
+        else:
+            c.update(metric=kind, X=gen_points(rng, n, rng.randint(1, 3), rng.choice([4, 6, 10])),
+                     dtype=rng.choice(["float64", "float64", "float32", "int32", "int64"]))
+            if rng.random() < 0.25:
+                c["layout"] = rng.choice(LAYOUTS)
+        c["nclu"] = rng.randint(3, min(7, n))
+        if rng.random() < 0.35:
+            c["init"] = rng.sample(range(n), rng.randint(1, 2))
+            c["init_form"] = gen_init_form(rng)
+        D = _int_D(c)
+        if kind != "euclidean" and rng.random() < 0.3:
+            # stop on a radius the greedy run attains with >= 3 centres (integer distances: exact in floating point)
+            radii = []
+            for k in range(3, min(8, n) + 1):
+                _, _, dk, _ = replay_greedy(D, n, k, 0, c["init"])
+                radii.append(max(dk))
+            c["cutoff"] = float(rng.choice(radii))
+            if rng.random() < 0.5:
+                c["nclu"] = None
+        cut = 0 if c["cutoff"] is None else F(c["cutoff"])
+        ctrs, _, _, steals = replay_greedy(D, n, c["nclu"], cut, c["init"])
+        if steals >= 1 and len(ctrs) >= 3:
+            break
+    if kind == "traj":
+        c["M"] = [[str(v) for v in row] for row in c["M"]]
+        c["traj"] = True
+        if rng.random() < 0.3:
+            c["buf"] = True
+    return c
+
+
+def gen_hybrid_nonmetric(rng, mislead=True):
+    """k-hybrid with a user callable that is symmetric, zero exactly on identical frames, but does NOT obey the triangle
+    inequality: squared euclidean distances of distinct integer points (what upstream's own tests pass), or an arbitrary
+    symmetric integer table; 6..13 frames, >= 3 centres, 0..3 sweeps.  mislead=True: built so that the bound of the
+    triangle-inequality shortcut is wrong for some frame and a k-centers run relying on it ends at a higher cost than
+    the plain run -- the shortcut must not be taken on the caller's behalf."""
+    while True:
+        n = rng.randint(6, 13)
+        c = {"kind": "hybrid", "metric": "matrix", "n": n, "cutoff": None, "init": None, "nonmetric": True}
+        if rng.random() < 0.65:
+            pts = gen_points(rng, n, rng.randint(1, 2), rng.choice([6, 10, 20]))
+            M = [[sum((a - b) ** 2 for a, b in zip(p, q)) for q in pts] for p in pts]
+            c["sq_of"] = pts
+        else:
+            M = [[0] * n for _ in range(n)]
+            for i in range(n):
+                for j in range(i + 1, n):
+                    M[i][j] = M[j][i] = rng.randint(1, rng.choice([6, 12, 30]))
+        if is_metric_space(M):
+            continue
+        c.update(M=M, tri=False)
+        c["nclu"] = rng.randint(3, min(6, n - 1))
+        if rng.random() < 0.3:
+            c["init"] = rng.sample(range(n), rng.randint(1, 2))
+            c["init_form"] = gen_init_form(rng)
+        if rng.random() < 0.2:
+            _, _, dk, _ = replay_greedy(M, n, c["nclu"], 0, c["init"])
+            c["cutoff"] = float(max(dk))             # both criteria; the radius the plain run attains with nclu centres
+        cut = 0 if c["cutoff"] is None else F(c["cutoff"])
+        if mislead:
+            p = replay_greedy(M, n, c["nclu"], cut, c["init"])
+            s = replay_greedy(M, n, c["nclu"], cut, c["init"], ti=True)
+            if not sum(v * v for v in s[2]) > sum(v * v for v in p[2]):
+                continue
+        break
+    c["n_iters"] = rng.choice([0, 0, 1, 1, 2, 3])
+    c["seed"] = rng.randrange(10 ** 6)
+    c["form"] = "class" if rng.random() < 0.3 else "func"
+    if c["form"] == "class" and rng.random() < 0.4:
+        c["hist"] = gen_hist(rng, c)
     return c
 
 
@@ -1464,6 +1606,23 @@ def common_tags(c, out):
             t.append("non-frame-init-ti")
     if c.get("ti"):
         t.append("ti")
+        if c["kind"] == "kcenters" and "res" in out and len(out["res"]["ctrs"]) >= 3 and not c.get("vinit"):
+            D = [[F(v) for v in row] for row in out["D"]]
+            cut = F(c["cutoff"]) if c.get("cutoff") is not None else F(0)
+            if is_metric_space(D) and replay_greedy(D, c["n"], c.get("nclu"), cut, c.get("init"))[3] >= 1:
+                t.append("ti-new-centre-takes-frames-of-neighbouring-cluster")
+    if c["kind"] == "hybrid" and c["metric"] == "matrix" and "D" in out and "res" in out and c.get("init_pts") is None:
+        D = [[F(v) for v in row] for row in out["D"]]
+        if not is_metric_space(D):
+            t.append("hybrid-non-metric-callable")
+            cut = F(c["cutoff"]) if c.get("cutoff") is not None else F(0)
+            if replay_greedy(D, c["n"], c.get("nclu"), cut, c.get("init"), ti=True)[:3] != replay_greedy(D, c["n"], c.get("nclu"), cut, c.get("init"))[:3]:
+                t.append("hybrid-non-metric-callable-shortcut-bound-wrong")
+    if c.get("vinit") and c["kind"] == "kcenters":
+        if c.get("nclu") is not None and c["nclu"] > c["n"]:
+            t.append("non-frame-init-more-centres-requested-than-frames")
+        if out.get("n_centers") is not None and out["n_centers"] > c["n"]:
+            t.append("non-frame-init-ends-with-more-centres-than-frames")
     if c["kind"] == "kcenters" and c["metric"] == "euclidean" and any(float(v[0]) != int(v[0]) for v in c["X"] if len(v) == 1):
         t.append("near-half-boundary")
     if c.get("form") == "class":
